@@ -269,7 +269,7 @@ def run_update(ctx, case, R, tdy):
             if R.random() < 0.15:
                 # the implicit fetch fails (unreachable remote): non-zero exit is fine, but a run that exits 0 must
                 # still start from the greatest local tag
-                fake.set_out("branch", "* main 0123abc [origin/main] msg\n")
+                fake.set_out("branch", "*origin\n")
                 fake.set_out("remote", "git@unreachable.example:x/y.git\n")
                 fake.fail_match(["git fetch"])
                 fetch_arg = "--fetch"
